@@ -223,6 +223,16 @@ BUILDERS = {
     },
 }
 
+# C06: an interrupt that needs a particular filter-1 output data rate: (enable register, enable mask, source register or None,
+# source bit (set = filter 2, clear = filter 1), required ODR field code, error kind: 0 = TapIntEnabledInvalidODR, 1 = Filt1InterruptInvalidODR)
+ODR_REG, ODR_MASK = 'AccConfig1', 0x0F
+ODR_RULES = [
+    ('IntConfig1', 0x0C, None, 0x00, ENUMS['OutputDataRate']['Hz200'], 0),              # single / double tap: 200 Hz
+    ('IntConfig0', 0x04, 'Gen1IntConfig0', 0x10, ENUMS['OutputDataRate']['Hz100'], 1),  # generic 1 on filter 1: 100 Hz
+    ('IntConfig0', 0x08, 'Gen2IntConfig0', 0x10, ENUMS['OutputDataRate']['Hz100'], 1),  # generic 2 on filter 1: 100 Hz
+    ('IntConfig1', 0x10, 'ActChgConfig1', 0x10, ENUMS['OutputDataRate']['Hz100'], 1),   # activity change on filter 1: 100 Hz
+]
+
 # interrupt -> (enable register, enable mask) and the parameter registers it owns (C07)
 PARAM_OWNERS = [
     ('gen1', 'IntConfig0', 0x04, ['Gen1IntConfig' + s for s in ('0', '1', '2', '3', '31', '4', '5', '6', '7', '8', '9')]),
